@@ -23,6 +23,10 @@ def replay(req):
         return created_files_search(req)
     if req.get('property') == 'C11' or '/region.' in req.get('label', ''):
         return aliasing_cases(req)
+    if func.split('#')[0] in ('file_builder.FileBuilder._make_dirs',
+                              'file_builder.FileBuilder._prepare_file_creation',
+                              'file_builder.FileBuilder._dirs_to_make'):
+        return failed_setup_cases(req)
     r = replay_extra(req)
     if r is not None:
         return r
@@ -419,5 +423,54 @@ def aliasing_cases(req):
         return {'reproduced': False, 'evaluations': n,
                 'note': 'three unchanged rebuilds of a program that mutates every value it '
                         'receives behave like the non-mutating twin'}
+    finally:
+        shutil.rmtree(root, ignore_errors=True)
+
+
+# -------------------------------------------------------------------------------------------------
+def failed_setup_cases(req):
+    """C10/C14: a build_file whose parent directories cannot all be created (over-long component,
+    a regular file in the way) fails; when the caller catches the error nothing of it remains"""
+    from file_builder import FileBuilder
+    root = scratch()
+    n = 0
+    try:
+        write(os.path.join(root, 'plain.txt'), 'plain')
+        targets = {
+            'over-long-component': os.path.join(root, 'T', 'a', 'b' * 300, 'c', 'o.txt'),
+            'foreign-file-in-the-way': os.path.join(root, 'U', 'x', '..', '..', 'plain.txt', 'sub',
+                                                    'o.txt'),
+        }
+        for name, target in targets.items():
+            n += 1
+            seen = {}
+
+            def mk(b, filename):
+                write(filename, 'x')
+
+            def rootf(b):
+                try:
+                    b.build_file(target, 'mk', mk)
+                    seen['raised'] = None
+                except OSError as e:
+                    seen['raised'] = type(e).__name__
+                seen['virtual'] = [d for d in (os.path.join(root, 'T'), os.path.join(root, 'T', 'a'),
+                                               os.path.join(root, 'U'))
+                                   if b.exists(d)]
+                return 1
+            cache = os.path.join(root, 'cache_%s.gz' % name[:4])
+            before = set(snapshot(root))
+            FileBuilder.build(cache, 'n', rootf)
+            after = set(snapshot(root)) - {cache}
+            if seen.get('raised') is None:
+                continue
+            leaked = sorted(after - before)
+            if leaked or seen['virtual']:
+                return {'reproduced': True, 'input': 'build_file(%r) caught by the caller' % target,
+                        'check': 'a failed build_file leaves directories behind',
+                        'observed': {'on_disk_after_commit': leaked,
+                                     'visible_in_the_virtual_view': seen['virtual'],
+                                     'raised': seen['raised']}, 'evaluations': n}
+        return {'reproduced': False, 'evaluations': n}
     finally:
         shutil.rmtree(root, ignore_errors=True)
